@@ -46,6 +46,10 @@ pub enum POp {
     Listdir { n: u16, plus: bool, size: u32 },
     /// lookup a name, unlink it while referenced, create another file in the same directory (host inode reuse)
     UnlinkCreate { p: u16, name: u8, newname: u8 },
+    /// DESTROY followed by a new INIT (client state is gone, server must have released everything)
+    Reinit,
+    /// use a handle with the wrong inode / after release: must be refused with EBADF
+    BadHandle { h: u16, n: u16 },
 }
 
 #[derive(Clone, Debug, Serialize, Deserialize, PartialEq)]
@@ -265,6 +269,13 @@ pub fn apply(pt: &mut Pt, out: &mut Outcome, op: &POp) {
             if pt.lookup(out, p, nm(*name)).is_some() {
                 pt.unlink(out, p, nm(*name), false);
                 pt.create(out, p, nm(*newname), libc::O_RDWR as u32, 0o644, 0, 0, 0);
+            }
+        }
+        POp::Reinit => pt.reinit(out),
+        POp::BadHandle { h, n } => {
+            if let Some(h) = hsel(pt, *h) {
+                let n = nsel(pt, *n);
+                pt.bad_handle(out, h, n);
             }
         }
         POp::Listdir { n, plus, size } => {
